@@ -1,20 +1,86 @@
-(* Props/C05.v — Valid programs produce no error diagnostics: the theorems about the REFERENCE semantics of the
-   MiniVHDL fragment (Mini/Sem.v).  The analyser itself is tied to the reference by the correspondence run of
-   checks/c05.py only (claim: partial).  Statements only; proofs in Mini/Proofs*.v, Mini/MiniProofs.v.
-   DRAFT: the rewrite theorems are added when Mini/ProofsPhrase.v and Mini/ProofsAgree.v are complete. *)
+(* Props/C05.v — Valid programs produce no error diagnostics: the theorems about the REFERENCE static semantics
+   of the MiniVHDL fragment (Mini/Sem.v: `check_program`, `Valid p := check_program p = Ok tt`).  The analyser itself
+   (vhdl_lang/src/analysis, not modelled) is tied to the reference only by the correspondence run of checks/c05.py:
+   the claim is PARTIAL (evidence level `other`).
+   Statements only; proofs in Mini/ProofsTyping.v, Mini/ProofsPhrase*.v, Mini/ProofsAgree*.v, Mini/MiniProofs.v. *)
 From Coq Require Import List NArith Arith Bool.
 Import ListNotations.
 From RH Require Import Mini.Syntax Mini.Sem Mini.Typing Mini.Gen Mini.Walk Mini.Faults Mini.Rewrites Mini.MiniProofs.
 Open Scope N_scope.
 
-(* erasure: a complete-context expression / statement list with a typing derivation is accepted by the reference *)
+(* Erasure.  Typed syntax = raw syntax packaged with a derivation of the declarative typing judgment
+   (Mini/Typing.v).  Every derivable expression has an interpretation of its type in the reference; every derivable
+   complete context and every derivable statement list is accepted by the reference (in both modes: with
+   `unamb` as a premise of the judgment where the reference demands exactly one interpretation). *)
 Theorem C05_erase_WT : forall md GE G,
+  (forall e a, HasTy md GE G e a -> exists l, interp md GE G e = Ok l /\ existsb (sty_eqb a) l = true) /\
   (forall t (e : troot md GE G t), root md GE G t (erase_root md GE e) = Ok tt) /\
   (forall s : tstmts md GE G, check_stmts md GE G (erase_stmts md GE s) = Ok tt).
-Proof. intros md GE G. split; [intros t e; exact (erase_root_WT md GE G t e) | intros s; exact (erase_stmts_WT md GE G s)]. Qed.
+Proof.
+  intros md GE G. split; [|split].
+  - exact (hasty_sound md GE G).
+  - intros t e. exact (erase_root_WT md GE G t e).
+  - intros s. exact (erase_stmts_WT md GE G s).
+Qed.
 
+(* The generator (which builds expressions and statements as typed syntax and threads declarations and units
+   through the reference) only returns Valid programs. *)
 Theorem C05_gen_valid : forall choices, Valid (gen_program choices).
 Proof. exact gen_valid. Qed.
 
+(* Every listed rewrite preserves validity where it is applicable ... *)
+Theorem C05_rewrites_preserve_valid : forall r p,
+  Valid p -> applicable r p = true -> Valid (apply_rewrite r p).
+Proof. exact rewrite_valid. Qed.
+(* ... and so does every composition. *)
+Theorem C05_rewrites_compose : forall rs p,
+  Valid p -> applicable_all rs p = true -> Valid (apply_rewrites rs p).
+Proof. exact rewrites_valid. Qed.
+
+(* The individual rewrites (R1 swap of independent declarations, R2 positional <-> named association, R3 selected
+   names, R4 wrap in a block, R5 added unused declaration).  `RUseItems` (item-wise use clause) is the one rewrite
+   whose `applicable` re-runs the reference on the result, so its preservation is immediate; for the others
+   `applicable` is a syntactic side condition (R1, R5) or the acceptance of the one rewritten phrase in the
+   environment of the original phrase (R2, R3, R4). *)
+Theorem C05_swap_valid : forall p s,
+  Valid p -> applicable (RSwap s) p = true -> Valid (apply_rewrite (RSwap s) p).
+Proof. exact swap_valid. Qed.
+Theorem C05_phrase_rewrites_valid : forall p r,
+  Valid p -> phrase_rewrite r -> applicable r p = true -> Valid (apply_rewrite r p).
+Proof. exact rewrite_phrase_valid. Qed.
+Theorem C05_adddecl_valid : forall p s x k,
+  Valid p -> applicable (RAddDecl s x k) p = true -> Valid (apply_rewrite (RAddDecl s x k) p).
+Proof. exact adddecl_valid. Qed.
+(* the first formulation of R5's side condition was too weak: the counterexample, kept as a regression *)
+Example C05_adddecl_old_refuted :
+  Valid adddecl_cex /\ applicable (RAddDecl 103 id_false 0) adddecl_cex = false /\
+  check_program (apply_rewrite (RAddDecl 103 id_false 0) adddecl_cex) = Bad 104 Conservative.
+Proof. exact adddecl_cex_not_applicable. Qed.
+
+(* Non-vacuity: a generated program with two non-empty libraries and overloaded subprograms; it is Valid, its node
+   ids are pairwise different, and a chain of three different rewrites is applicable to it (and changes it: the number of nodes differs). *)
+Example C05_example :
+  let p := example_program in
+  map (fun l => Nat.ltb 0 (length (l_units l))) p = [true; true] /\
+  has_overloads p = true /\ valid_b p = true /\ nodup_nids p = true /\ gen_fell_back example_choices = false /\
+  exists rs, length rs = 3%nat /\ applicable_all rs p = true /\
+             Nat.eqb (length (nids_program (apply_rewrites rs p))) (length (nids_program p)) = false.
+Proof. exact example_C05. Qed.
+
+Check C05_erase_WT : forall md GE G,
+  (forall e a, HasTy md GE G e a -> exists l, interp md GE G e = Ok l /\ existsb (sty_eqb a) l = true) /\
+  (forall t (e : troot md GE G t), root md GE G t (erase_root md GE e) = Ok tt) /\
+  (forall s : tstmts md GE G, check_stmts md GE G (erase_stmts md GE s) = Ok tt).
+Check C05_gen_valid : forall choices, Valid (gen_program choices).
+Check C05_rewrites_preserve_valid : forall r p, Valid p -> applicable r p = true -> Valid (apply_rewrite r p).
+Check C05_rewrites_compose : forall rs p, Valid p -> applicable_all rs p = true -> Valid (apply_rewrites rs p).
+
 Print Assumptions C05_erase_WT.
 Print Assumptions C05_gen_valid.
+Print Assumptions C05_rewrites_preserve_valid.
+Print Assumptions C05_rewrites_compose.
+Print Assumptions C05_swap_valid.
+Print Assumptions C05_phrase_rewrites_valid.
+Print Assumptions C05_adddecl_valid.
+Print Assumptions C05_adddecl_old_refuted.
+Print Assumptions C05_example.
